@@ -4,6 +4,7 @@ package main
 // and the harness intrinsics.
 
 import (
+	"encoding/asn1"
 	"fmt"
 	"os"
 	"go/types"
@@ -50,6 +51,14 @@ func init() {
 	}
 	models["bytes.Equal"] = func(it *Interp, fr *frame, args []Value, fn *ssa.Function) Value {
 		a, b := args[0].(Bytes), args[1].(Bytes)
+		// two minimal big-endian encodings ((*big.Int).Bytes windows) are equal iff the values are
+		if a.Obj != nil && b.Obj != nil && a.Obj.lzOff != nil && b.Obj.lzOff != nil && a.Off == a.Obj.lzOff && b.Off == b.Obj.lzOff {
+			ma, mb := it.bigFromWindow(a), it.bigFromWindow(b)
+			if ma != nil && mb != nil {
+				x, y := it.widen(ma, mb, 0)
+				return it.ctx.Eq(x, y)
+			}
+		}
 		a.Str, b.Str = true, true
 		return it.bytesEq(a, b)
 	}
@@ -423,6 +432,30 @@ func init() {
 	models["(time.Time).Equal"] = cmp(OpEq, false)
 	models["(time.Time).IsZero"] = func(it *Interp, fr *frame, args []Value, fn *ssa.Function) Value {
 		return it.ctx.Eq(args[0].(Struct)[1].(*Term), it.ctx.Int(0))
+	}
+}
+
+// encoding/asn1.Marshal of a concrete OBJECT IDENTIFIER: the real encoder is run on the constant.
+func init() {
+	models["encoding/asn1.Marshal"] = func(it *Interp, fr *frame, args []Value, fn *ssa.Function) Value {
+		v := args[0].(Iface)
+		g, ok := v.V.(GSlice)
+		if !ok || v.T.String() != "encoding/asn1.ObjectIdentifier" {
+			unsupported("asn1.Marshal of %s", v.T)
+		}
+		var arcs asn1.ObjectIdentifier
+		for _, e := range g.D {
+			t := e.(*Term)
+			if !t.IsConst() {
+				unsupported("asn1.Marshal of an OBJECT IDENTIFIER with symbolic arcs")
+			}
+			arcs = append(arcs, int(t.Sint()))
+		}
+		der, err := asn1.Marshal(arcs)
+		if err != nil {
+			return Tuple{Bytes{Off: it.ctx.Int(0), Len: it.ctx.Int(0), Cap: it.ctx.Int(0)}, it.newError("asn1: "+err.Error(), nil)}
+		}
+		return Tuple{it.bytesVal(der), Iface{}}
 	}
 }
 
@@ -1412,6 +1445,11 @@ func init() {
 			}
 		}
 		return it.ctx.True
+	}
+	// verifHeld(&mu): whether the calling path currently holds the mutex
+	intrinsics["verifHeld"] = func(it *Interp, fr *frame, args []Value, fn *ssa.Function) Value {
+		m := args[0].(Iface).V.(Ptr)
+		return it.ctx.Bool(it.held[m.P] > 0)
 	}
 	intrinsics["verifWatch"] = reg(false, false)
 	intrinsics["verifWatchRO"] = reg(true, false)
